@@ -17,7 +17,7 @@
 From Coq Require Import ZArith List Bool.
 Import ListNotations.
 Require Import OV.Index.NumpySpec OV.Index.OnnxSlice OV.Index.ConverterIdx OV.Index.EagerIdx OV.Index.ViewProofs
-               OV.Index.AdvSpec OV.Index.AdvProofs.
+               OV.Index.AdvSpec OV.Index.AdvConvProofs OV.Index.AdvProofs.
 Open Scope Z_scope.
 
 (* good forms: at most one tensor index of rank >= 1, in one block with the scalar indices or with no slice in front *)
@@ -88,8 +88,48 @@ Print Assumptions C11_eager_scalar_adv_sound_partial.
 (* the full statements (whatever is returned is NumPy's result, for every index expression) are false ... *)
 Definition C11_converter_adv_full : Prop := conv_adv_full.
 Definition C11_eager_adv_full : Prop := eager_adv_full.
-(* ... and the statement restricted to good forms is the missing general theorem *)
+(* ... the statement restricted to good forms holds: every index tuple (any number of constant ints, slices and
+   tensor-valued indices of any rank), every rank and shape *)
 Definition C11_converter_adv_good_full : Prop := conv_adv_good_full.
+
+Theorem C11_converter_adv_good_sound : forall shape aidx n,
+  dims_ok shape -> (length aidx <= length shape)%nat -> hazard_free shape (map flat aidx) = true ->
+  good_form (full_form shape aidx) = true ->
+  conv_nest shape aidx = Some n -> np_nest shape aidx = Some n.
+Proof. exact conv_adv_good_sound. Qed.
+Print Assumptions C11_converter_adv_good_sound.
+
+(* completeness (no spurious errors): on a good form where NumPy returns, the converter returns the same, unless it refuses a
+   slice (tensor-valued step with an omitted bound) or the constant -1 goes through Slice + Squeeze (error, allowed) *)
+Theorem C11_converter_adv_good_complete : forall shape aidx n,
+  dims_ok shape -> hazard_free shape (map flat aidx) = true ->
+  conv_accepts (map flat aidx) = true -> conv_minus1_ok (map flat aidx) = true ->
+  good_form (full_form shape aidx) = true ->
+  np_nest shape aidx = Some n -> conv_nest shape aidx = Some n.
+Proof. exact conv_adv_good_complete. Qed.
+Print Assumptions C11_converter_adv_good_complete.
+
+(* the op chain itself, every index tuple, good form or not: it computes NumPy's per-axis view (sound and complete) ... *)
+Theorem C11_converter_chain_is_per_axis_view_sound : forall shape idx v,
+  dims_ok shape -> (length idx <= length shape)%nat -> hazard_free shape idx = true ->
+  run_conv true shape idx = Some v -> np_index shape idx = Some v.
+Proof. exact conv_view_sound_all. Qed.
+Print Assumptions C11_converter_chain_is_per_axis_view_sound.
+
+Theorem C11_converter_chain_is_per_axis_view_complete : forall shape idx v,
+  dims_ok shape -> hazard_free shape idx = true -> conv_accepts idx = true -> conv_minus1_ok idx = true ->
+  np_index shape idx = Some v -> run_conv true shape idx = Some v.
+Proof. exact conv_view_complete_all. Qed.
+Print Assumptions C11_converter_chain_is_per_axis_view_complete.
+
+(* ... hence the converter's result IS the outer arrangement, also on the bad forms (where it differs from NumPy by
+   C11_arrangement_differs_iff / C11_two_tensor_indices_rank_differs): accepted, never rescued by an error *)
+Theorem C11_converter_result_is_outer_arrangement : forall shape aidx,
+  dims_ok shape -> (length aidx <= length shape)%nat -> hazard_free shape (map flat aidx) = true ->
+  conv_accepts (map flat aidx) = true -> conv_minus1_ok (map flat aidx) = true ->
+  conv_nest shape aidx = outer_nest shape aidx.
+Proof. exact conv_nest_is_outer_nest. Qed.
+Print Assumptions C11_converter_result_is_outer_arrangement.
 
 (* X[I, J], I = [0,1], J = [1,2], shape (3,4): graph shape (2,2), NumPy (2) *)
 Theorem C11_converter_adv_full_refuted : ~ C11_converter_adv_full.
